@@ -54,6 +54,7 @@ PLANS = {
     ),
     'C03': dict(
         specs=KERNEL_SPECS, contracts=KERNEL_CONTRACTS, targets=TERM_TARGETS, level='proof',
+        custom=['models.holpy.id_inj_frame'],
         assumptions=COMMON_ASSUMPTIONS + [
             "tuple equality of Type.args uses Type.__eq__'s own contract as induction hypothesis",
             "denotation preservation in every model is A1 (the spec functions lift/inst_bound/abstract are "
